@@ -2,7 +2,7 @@
    Model: Names.expand (generate.GenFunctions.define_function_suffix: default-argument clones, template clones,
    overload numbering, fortran_generic clones), Names.un_camel (util.un_camel), the C_name / F_name_impl templates. *)
 From Coq Require Import List NArith ZArith Bool Arith String.
-From Shroud Require Import Base.Ustr Model.Splicer Model.Options Model.Names Proof.Names.
+From Shroud Require Import Base.Ustr Model.Splicer Model.Options Model.Names Proof.Names Proof.NamesPin.
 Import ListNotations.
 
 (* defaulted suffixes (no explicit function_suffix / default_arg_suffix, no templates, no fortran_generic), any number of
@@ -25,6 +25,27 @@ Print Assumptions C08_names_pairwise_distinct_partial.
 Theorem C08_generic_name_is_cxx_name : forall fs e, In e (expand fs) -> nm_f_generic e = un_camel (e_name e).
 Proof. exact generic_name_is_cxx_name. Qed.
 Print Assumptions C08_generic_name_is_cxx_name.
+
+(* an explicit function_suffix on ONE member of an overload set (functions without default arguments, templates or
+   fortran_generic; any other explicit suffixes elsewhere) that spells the number of the member's own position changes no
+   emitted C or Fortran name: the other members are still numbered by their position in the whole set, so the names stay
+   exactly those of the unpinned library (distinct by the theorem above when that library is plain) *)
+Theorem C08_pinning_the_default_number_changes_no_name : forall prefix scope fscope fs i f,
+  Forall bare fs -> nth_error fs i = Some f -> f_suffix f = None ->
+  1 < List.length (filter (same_name (f_name f)) fs) ->
+  c_names prefix scope (upd i (pin_fn fs i f) fs) = c_names prefix scope fs /\
+  f_names fscope (upd i (pin_fn fs i f) fs) = f_names fscope fs.
+Proof. exact pinned_names_unchanged. Qed.
+Print Assumptions C08_pinning_the_default_number_changes_no_name.
+
+Example C08_pinning_example :
+  let fs := [mkfn "g" 0 None; mkfn "g" 0 None; mkfn "g" 0 None] in
+  match nth_error fs 1 with
+  | Some f => c_names (cp "OVL_") [] (upd 1 (pin_fn fs 1 f) fs) = map cp ["OVL_g_0"; "OVL_g_1"; "OVL_g_2"]%string
+              /\ f_suffix (pin_fn fs 1 f) = Some (cp "_1"%string)
+  | None => False
+  end.
+Proof. exact pinned_example. Qed.
 
 (* The FULL statement (explicit suffixes; any names with pairwise distinct underscore forms) is false of the model: *)
 Theorem C08_explicit_suffix_with_default_refuted :
